@@ -127,6 +127,41 @@ def query_plan(vc):
         vc.check('page/carries-paging-state', fut.attrs['message'].attrs['paging_state'] == b'ps')
 
 
+@harness('C17', 'constructor', functions=[RF + '__init__', RF + '_make_query_plan'], native='contracts.native.c17:replay')
+def constructor(vc):
+    """ensures a future constructed with host=h starts out with the plan [h] - the first attempt of a targeted request goes to the target, the
+    load-balancing policy is not asked - and one constructed without a target with exactly the policy's plan for (session keyspace, query); the
+    message, the timeout and the retry policy it was given are the ones the attempts will read"""
+    import threading
+    from cassandra.cluster import ResponseFuture
+    h1, h2, hx = R.Host('h1'), R.Host('h2'), R.Host('hx')
+    world = _world(vc, [h1, h2, hx], ['ok', 'ok', 'ok'])
+    session = R.Session(world, 4)
+    targeted = vc.choice('targeted', [True, False])
+    calls = []
+
+    class LB(object):
+        def make_query_plan(self, keyspace, query):
+            calls.append((keyspace, query))
+            return [h1, h2]
+    lb_from = vc.choice('load_balancer', ['argument', 'cluster-default'])
+    lb = LB()
+    if lb_from == 'cluster-default':
+        session.cluster._default_load_balancing_policy = lb
+    fut = vc.obj(ResponseFuture)
+    vc.stub(RF + '_start_timer', lambda self_: None)
+    msg, query, rp = object(), object(), object()
+    vc.call(RF + '__init__', fut, session, msg, query, 2.5, retry_policy=rp, load_balancer=(lb if lb_from == 'argument' else None),
+            host=(hx if targeted else None))
+    plan = fut.attrs.get('query_plan')
+    items = list(plan.items[plan.pos:]) if isinstance(plan, GenList) else list(plan)
+    vc.check('post/first-plan-is-the-target-alone-or-the-policy-plan', items == ([hx] if targeted else [h1, h2]))
+    vc.check('post/policy-not-consulted-for-a-targeted-request', calls == ([] if targeted else [(session.keyspace, query)]))
+    vc.check('post/target-remembered-for-later-pages', fut.attrs.get('_host') is (hx if targeted else None))
+    vc.check('post/message-timeout-policy-kept', fut.attrs.get('message') is msg and fut.attrs.get('timeout') == 2.5 and fut.attrs.get('_retry_policy') is rp)
+    vc.check('post/nothing-attempted-yet', fut.attrs.get('attempted_hosts') == [] and fut.attrs.get('_errors') == {} and world.sends() == [])
+
+
 class _NoSpec(object):
     def next_execution(self, host):
         return -1
